@@ -176,7 +176,7 @@ theorem reseed_source_is_model (st : St) (bp : Nat) (X : Array LByte) (baseP ud 
       callFun prog fuel idx_tinyjambu_prng_reseed true [(mkPtr bp baseP, .pub)] st = .ok .normal #[(ret.toNat, .pub), (mkPtr bp baseP, .pub)] st' ∧
       st'.ent = script e' ∧ st'.mem.size = st.mem.size ∧ st'.mem[bp]? = some ⟨X', baseP⟩ ∧ X'.size = X.size ∧ Holds X' p' ∧ PCb X' ud ∧
       (∀ j, j ≠ bp → ORel (KeepW (fun _ => False) (fun _ => False)) st'.mem[j]? st.mem[j]?) := by
-  obtain ⟨k, sig, en, s, hx, hsig, hen, hent', hmsz, ⟨X', g1, g2, g3, g4⟩, g5⟩ := prng_reseed_call_ret 0 #[(0, .pub), (mkPtr bp baseP, .pub)] st (.var 1) bp X baseP p.V p.C p.rc.toNat p.rl.toNat ud .pub
+  obtain ⟨k, sig, en, s, hx, hsig, hen, hent', hmsz, ⟨X', g1, g2, g3, g4⟩, g5⟩ := prng_reseed_call_ret userCb (Or.inl rfl) 0 #[(0, .pub), (mkPtr bp baseP, .pub)] st (.var 1) bp X baseP p.V p.C p.rc.toNat p.rl.toNat ud .pub
     (by simp [evalE]) hP ho hpcb.toV hal hltP hsz
   subst hsig
   cases hu : e.user with
@@ -186,7 +186,7 @@ theorem reseed_source_is_model (st : St) (bp : Nat) (X : Array LByte) (baseP ud 
       by simp only [Prng.reseed, Ent.request, hcb, hu], ?_, by rw [hent', hent, script, hu]; rfl, hmsz, g1, g2, ?_, pcb_vle hpcb (fun q hq => g4 q (by omega)), g5⟩
     · unfold callFun
       simp only [List.length_cons, List.length_nil, List.range, List.range.loop, List.map, if_true, Nat.zero_add]
-      rw [hx, hen, hd]; rfl
+      rw [hx, hen, hd, cbRet_user]; rfl
     · rw [hd] at g3
       have : seedOf ([], 0) p.V = p.V := by unfold seedOf; simp
       rw [this] at g3; exact g3
@@ -197,7 +197,7 @@ theorem reseed_source_is_model (st : St) (bp : Nat) (X : Array LByte) (baseP ud 
       { e with user := r }, X', by simp only [Prng.reseed, Ent.request, hcb, hu], ?_, by rw [hent', hent, script, hu]; rfl, hmsz, g1, g2, ?_, pcb_vle hpcb (fun q hq => g4 q (by omega)), g5⟩
     · unfold callFun
       simp only [List.length_cons, List.length_nil, List.range, List.range.loop, List.map, if_true, Nat.zero_add]
-      rw [hx, hen, hd]
+      rw [hx, hen, hd, cbRet_user]
       by_cases h32 : d.ret = 32
       · simp [h32]; rfl
       · simp [h32]; rfl
@@ -216,13 +216,33 @@ theorem generate_source_is_model (st : St) (bp bd : Nat) (Xp XD : Array LByte) (
       st'.mem[bd]? = some ⟨XD', based⟩ ∧ XD'.size = XD.size ∧ BytesV XD' doff r.out ∧ r.out.length = n ∧ (∀ q, (q < doff ∨ doff + n ≤ q) → ORel VLe XD'[q]? XD[q]?) ∧
       (∀ j, j ≠ bp → j ≠ bd → ORel (KeepW (fun _ => False) (fun _ => False)) st'.mem[j]? st.mem[j]?) := by
   obtain ⟨r, hr1, hr2, hr3, _, _, _⟩ := genLoop_link n n p e (Nat.le_refl _) hcb hs hsh
-  obtain ⟨k, sig, en, s, hx, hsig, hen, hent', hmsz, ⟨Xp', g1, g2, g3, g4⟩, ⟨XD', d1, d2, d3, d4, d5⟩, g5⟩ := prng_generate_call
+  obtain ⟨k, sig, en, s, hx, hsig, hen, hent', hmsz, ⟨Xp', g1, g2, g3, g4⟩, ⟨XD', d1, d2, d3, d4, d5⟩, g5⟩ := prng_generate_call userCb (Or.inl rfl)
     #[(0, .pub), (mkPtr bp baseP, .pub), (mkPtr bd (based + doff), .pub), (n, .pub)] st (.var 1) (.var 2) (.var 3) bp bd Xp XD baseP based doff n ud (toGS p e)
     (by simp [evalE]) (by simp [evalE]) (by simp [evalE]) hP ho hpcb hent hD hpd hal hltP hltD hin hsz
   subst hsig hen
   rw [← hr3] at hent' g3
   rw [← hr2] at d3 d4
   refine ⟨k, s, r, Xp', XD', hr1, ?_, hent', hmsz, g1, g2, g3, g4, d1, d2, d3, d4, d5, g5⟩
+  unfold callFun
+  simp only [List.length_cons, List.length_nil, List.range, List.range.loop, List.map, Bool.false_eq_true, if_false, Nat.zero_add]
+  exact hx
+
+/-- `tinyjambu_prng_generate` with the SYSTEM source installed (`tinyjambu_prng_system`, the regenerated function; `tinyjambu_trng_generate` is one scripted delivery of
+    the semantics): the same source-level block loop `GS.loop` — every automatic reseed consumes one delivery of the system source -/
+theorem generate_source_system (st : St) (bp bd : Nat) (Xp XD : Array LByte) (baseP based doff n ud : Nat) (g : GS)
+    (hP : st.mem[bp]? = some ⟨Xp, baseP⟩) (ho : PObjV Xp g.V g.C g.rc g.rl) (hpcb : PCb Xp ud sysCb) (hent : st.ent = g.ent)
+    (hD : st.mem[bd]? = some ⟨XD, based⟩) (hpd : bp ≠ bd) (hal : baseP % 8 = 0) (hltP : baseP + Xp.size < ptrBase) (hltD : based + XD.size < ptrBase)
+    (hin : doff + n ≤ XD.size) (hsz : st.mem.size + 7 < 2 ^ 30) :
+    ∃ fuel st' Xp' XD', callFun prog fuel idx_tinyjambu_prng_generate false [(mkPtr bp baseP, .pub), (mkPtr bd (based + doff), .pub), (n, .pub)] st =
+        .ok .normal #[(0, .pub), (mkPtr bp baseP, .pub), (mkPtr bd (based + doff), .pub), (n, .pub)] st' ∧
+      st'.ent = (g.loop n).2.ent ∧ st'.mem.size = st.mem.size ∧
+      st'.mem[bp]? = some ⟨Xp', baseP⟩ ∧ PObjV Xp' (g.loop n).2.V (g.loop n).2.C (g.loop n).2.rc (g.loop n).2.rl ∧ PCb Xp' ud sysCb ∧
+      st'.mem[bd]? = some ⟨XD', based⟩ ∧ BytesV XD' doff (g.loop n).1 ∧ (g.loop n).1.length = n := by
+  obtain ⟨k, sig, en, s, hx, hsig, hen, hent', hmsz, ⟨Xp', g1, g2, g3, g4⟩, ⟨XD', d1, d2, d3, d4, d5⟩, g5⟩ := prng_generate_call sysCb (Or.inr rfl)
+    #[(0, .pub), (mkPtr bp baseP, .pub), (mkPtr bd (based + doff), .pub), (n, .pub)] st (.var 1) (.var 2) (.var 3) bp bd Xp XD baseP based doff n ud g
+    (by simp [evalE]) (by simp [evalE]) (by simp [evalE]) hP ho hpcb hent hD hpd hal hltP hltD hin hsz
+  subst hsig hen
+  refine ⟨k, s, Xp', XD', ?_, hent', hmsz, g1, g3, g4, d1, d3, d4⟩
   unfold callFun
   simp only [List.length_cons, List.length_nil, List.range, List.range.loop, List.map, Bool.false_eq_true, if_false, Nat.zero_add]
   exact hx
